@@ -79,6 +79,8 @@ func runC20(a *Analyzer, r *Results) {
 				nLits++
 				readerName := strings.TrimSuffix(nt.Obj().Name(), "Builder")
 				set := map[string]bool{}
+				fc := a.NewFCtx(f, a.EntryEnv(f, nil), 0)
+				recvTerms := map[string]string{} // receiver term key -> example field
 				for _, ref := range *al.Referrers() {
 					fa, ok := ref.(*ssa.FieldAddr)
 					if !ok {
@@ -108,10 +110,76 @@ func runC20(a *Analyzer, r *Results) {
 							if sc := call.Call.StaticCallee(); sc != nil && sc.Signature.Recv() != nil && funcPkgPath(sc) == modPath+"/spec/types/go/protocol" {
 								recv := typeShort(sc.Signature.Recv().Type())
 								if recv == "protocol."+readerName {
+									recvTerms[fc.Term(call.Call.Args[0]).Key()] = fname
 									okName := sc.Name() == fname
 									r.Check("W5.name", props("C20", "C09"), "a builder field copied from a reader of the same schema type is sourced from the accessor of the same name", shortName(f)+"|"+nt.Obj().Name()+"."+fname, a.P.InstrPos(s2), okName,
 										"field "+fname+" is copied from accessor "+sc.Name()+"()", "D")
 								}
+							}
+						}
+					}
+				}
+				// source consistency: all reader-sourced fields of one literal come from one reader value,
+				// and a literal nested as field F of a parent literal reads from accessor F of the parent's reader
+				if len(recvTerms) > 0 {
+					var srcs []string
+					for k, fld := range recvTerms {
+						srcs = append(srcs, fld+" <- "+prettyKeyShort(k))
+					}
+					sortStrings(srcs)
+					r.Check("W5.source", props("C20", "C09"), "all fields that a builder literal copies from a reader come from one and the same reader value (no field borrowed from a sibling structure)", shortName(f)+"|"+nt.Obj().Name()+"@"+a.P.InstrPos(al), a.P.InstrPos(al), len(recvTerms) == 1, "fields read from different readers: "+strings.Join(srcs, " ; "), "D")
+					if len(recvTerms) == 1 {
+						var child *Term
+						var childRecv ssa.Value
+						for _, ref := range *al.Referrers() {
+							if fa, ok := ref.(*ssa.FieldAddr); ok {
+								for _, r2 := range *fa.Referrers() {
+									if s2, ok := r2.(*ssa.Store); ok && s2.Addr == fa {
+										v := s2.Val
+										for {
+											if cv, ok := v.(*ssa.Convert); ok {
+												v = cv.X
+												continue
+											}
+											break
+										}
+										if call, ok := v.(*ssa.Call); ok && call.Call.StaticCallee() != nil && call.Call.StaticCallee().Signature.Recv() != nil && typeShort(call.Call.StaticCallee().Signature.Recv().Type()) == "protocol."+readerName {
+											child = fc.Term(call.Call.Args[0])
+											childRecv = call.Call.Args[0]
+										}
+									}
+								}
+							}
+						}
+						// is this literal stored into a field of a parent builder literal?
+						for _, ref := range *al.Referrers() {
+							st2, ok := ref.(*ssa.Store)
+							if !ok || st2.Val != ssa.Value(al) {
+								continue
+							}
+							pfa, ok := st2.Addr.(*ssa.FieldAddr)
+							if !ok {
+								continue
+							}
+							pal, ok := pfa.X.(*ssa.Alloc)
+							if !ok {
+								continue
+							}
+							pst, ok := pal.Type().(*types.Pointer).Elem().Underlying().(*types.Struct)
+							if !ok {
+								continue
+							}
+							pfield := pst.Field(pfa.Field).Name()
+							// only a re-encoding of the parent's own schema type is constrained: the child's reader must itself
+							// have been obtained from a reader of the parent's schema type
+							parentReader := "protocol." + strings.TrimSuffix(typeShortName(pal.Type()), "Builder")
+							fromParentSchema := false
+							if cc, ok := childRecv.(*ssa.Call); ok && cc.Call.StaticCallee() != nil && cc.Call.StaticCallee().Signature.Recv() != nil {
+								fromParentSchema = typeShort(cc.Call.StaticCallee().Signature.Recv().Type()) == parentReader
+							}
+							if fromParentSchema && child != nil && child.Op == "call" && strings.HasPrefix(child.Name, "protocol.") {
+								okP := child.Name == "protocol."+pfield
+								r.Check("W5.nested", props("C20", "C09"), "a builder literal nested as field F of a parent literal copies from accessor F() of the parent's reader", shortName(f)+"|"+pfield, a.P.InstrPos(st2), okP, "field "+pfield+" is built from "+PP(child), "D")
 							}
 						}
 					}
@@ -532,4 +600,21 @@ func sortStrings(s []string) {
 			s[j], s[j-1] = s[j-1], s[j]
 		}
 	}
+}
+
+
+func prettyKeyShort(k string) string {
+	k = strings.ReplaceAll(k, "call:protocol.", "")
+	k = strings.ReplaceAll(k, "call:", "")
+	k = strings.ReplaceAll(k, "field:", ".")
+	return clip(k, 160)
+}
+
+
+func typeShortName(t types.Type) string {
+	s := typeShort(t)
+	if i := strings.LastIndex(s, "."); i >= 0 {
+		return s[i+1:]
+	}
+	return s
 }
